@@ -153,7 +153,20 @@ func c20Scenario(seed uint64) (*core.Scenario, *C20Extra, string) {
 			p += len("when\n    ")
 			q := p + strings.Index(t[p:], "\n")
 			k := int(r.PickInt64(8, 16, 24, 40, 60))
-			switch r.Intn(4) {
+			switch r.Intn(6) {
+			case 4:
+				// a long FLAT chain of one binary operator (no bracket anywhere): legal, and left-deep in the tree
+				k = int(r.PickInt64(50, 200, 600, 1000))
+				unit := r.PickStr(" && F.B == true", " || F.B", " && F.I + 1 > 0")
+				if r.Chance(1, 40) {
+					// known finding KF2: what remains after D13 is quadratic. One fixed shape whose allocation is
+					// far beyond the bound, so that the verdict does not hang on a wall-clock measurement.
+					k, unit = 4000, " && F.B == true"
+				}
+				ex.Ops = append(ex.Ops, dsim.COp{Kind: "insert", Pos: q, Text: strings.Repeat(unit, k)})
+			case 5:
+				k = int(r.PickInt64(50, 200, 600, 1000))
+				ex.Ops = append(ex.Ops, dsim.COp{Kind: "insert", Pos: q, Text: " && F.I" + strings.Repeat(r.PickStr(" + 1", " * F.I", " - G.I"), k) + " != 7"})
 			case 0:
 				ex.Ops = append(ex.Ops, dsim.COp{Kind: "insert", Pos: q, Text: strings.Repeat(")", k)}, dsim.COp{Kind: "insert", Pos: p, Text: strings.Repeat("(", k)})
 			case 1:
@@ -255,6 +268,30 @@ func c20Scenario(seed uint64) (*core.Scenario, *C20Extra, string) {
 var hexAddr = regexp.MustCompile(`0x[0-9a-f]+`)
 var nodeID = regexp.MustCompile(`n[0-9]{10}`)
 
+// flatChain is the largest number of binary operators in a stretch of text without any bracket, brace or
+// semicolon: the length of the longest flat operator chain.
+func flatChain(d []byte) int {
+	best, cur := 0, 0
+	inOp := false
+	for _, c := range d {
+		switch c {
+		case '(', ')', '[', ']', '{', '}', ';':
+			cur, inOp = 0, false
+		case '&', '|', '+', '-', '*', '/', '%', '<', '>', '=', '!':
+			if !inOp {
+				cur++
+				if cur > best {
+					best = cur
+				}
+			}
+			inOp = true
+		default:
+			inOp = false
+		}
+	}
+	return best
+}
+
 // bracketRun is the longest run of consecutive opening brackets in a text input.
 func bracketRun(d []byte) int {
 	best, cur := 0, 0
@@ -276,6 +313,9 @@ func c20Eval(ex *C20Extra, timeout time.Duration) (v *core.Violation, herr strin
 	defer func() {
 		if v != nil && (ex.Kind == "grl" || ex.Kind == "jsonrule") {
 			v.Message += fmt.Sprintf(" (longest run of opening brackets in the input: %d)", bracketRun(data))
+			if ex.Kind == "grl" {
+				v.Message += fmt.Sprintf(" (longest flat chain of binary operators in the input: %d)", flatChain(data))
+			}
 		}
 	}()
 	req := ex.Reader
@@ -355,7 +395,7 @@ func runC20(c *Check, seed uint64, i int, tier string, st *core.Stats) {
 	}
 	sig := v.Oracle + "|" + ex.Kind + "|" + firstWords(v.Message)
 	if v.Oracle == "C20.resource-blowup" {
-		sig = fmt.Sprintf("%s|%s|deep=%v", v.Oracle, ex.Kind, bracketRun(data) >= 100)
+		sig = fmt.Sprintf("%s|%s|deep=%v|chain=%v", v.Oracle, ex.Kind, bracketRun(data) >= 100, ex.Kind == "grl" && flatChain(data) >= 2000)
 	}
 	for _, f := range st.Found {
 		if f.V.Sig == sig {
@@ -371,7 +411,12 @@ func runC20(c *Check, seed uint64, i int, tier string, st *core.Stats) {
 				fmt.Fprintf(os.Stderr, "UNCONFIRMED first=%+v second=%+v kind=%s ops=%+v\n", v, v2, ex.Kind, ex.Ops)
 			}
 			st.Probes["unconfirmed."+v.Oracle]++
-			if len(st.Harness) < 5 {
+			timeBased := strings.Contains(v.Message, " needed ") || strings.Contains(v.Message, "did not return")
+			if timeBased {
+				// a wall-clock excess that a re-run with three times the budget does not show was load on the
+				// machine: counted in the evidence, neither a verdict nor machinery trouble
+				st.Probes["unconfirmed.wall-clock-only"]++
+			} else if len(st.Harness) < 5 {
 				st.Harness = append(st.Harness, "unconfirmed "+v.Oracle+" (not reproduced alone): machinery trouble, not a verdict")
 			}
 			return
